@@ -9,7 +9,7 @@ from .create import create_meta
 
 
 def _orig(tree, f):
-    return content(alpha.tree_key(tree, f), f["size"], f.get("gen", 0))
+    return content(alpha.tree_key(tree, f), f["size"], f.get("gen", 0), mode=f.get("mode", "rand"))
 
 
 def candidate_bytes(tree, f, cls, k, P):
@@ -150,6 +150,8 @@ def run_rebuild(case):
                 else:
                     fname = (f.get("meta_path") or f["path"])[-1]
                 for k, c in enumerate(f.get("cands", [])):
+                    if c.get("shared"):
+                        continue                   # served by the identical, same-named copy of another entry
                     if f["size"] == 0 and c["cls"] in ("shorter", "decoy_all", "decoy_some", "decoy_head"):
                         c["cls"] = "intact"        # for an empty file these are the empty file itself
                     sd = sdirs[c.get("search", 0) % len(sdirs)]
@@ -197,6 +199,11 @@ def run_rebuild(case):
                     marg = [os.path.relpath(m, sbx) for m in marg]
                     sdirs = [os.path.relpath(d, sbx) for d in sdirs]
                     dest = os.path.relpath(dest, sbx)
+                if case.get("dest_dot"):       # the destination is the working directory itself
+                    os.chdir(os.path.join(sbx, "dest"))
+                    marg = [os.path.abspath(os.path.join(sbx, m)) if not os.path.isabs(m) else m for m in marg]
+                    sdirs = [os.path.abspath(os.path.join(sbx, d)) if not os.path.isabs(d) else d for d in sdirs]
+                    dest = case["dest_dot"]
                 for _ in range(runs):
                     if case.get("route") == "cli":
                         from torrentfile.cli import execute
@@ -211,9 +218,11 @@ def run_rebuild(case):
         finally:
             log = fstrace.stop()
             os.chdir(cwd0)
-            if case.get("rel_paths"):
+            if case.get("rel_paths") and not case.get("dest_dot"):
                 sdirs = [os.path.join(sbx, d) for d in sdirs]
                 dest = os.path.join(sbx, dest)
+            if case.get("dest_dot"):
+                dest = os.path.join(sbx, "dest")
         if not isinstance(rec["count"], int):
             rec["count"] = -1
         after = snapshot(sbx)
